@@ -787,10 +787,19 @@ struct Case
     std::ostringstream op;
     op << "w " << idn << " " << size << " " << ts << " " << offset_at(ts);
     auto v = list_dir();
-    emit(op.str(), v);
-    if (threw) return;
     FileView cur_after;
     for (auto const& f : v) if (f.name == abase) cur_after = f;
+    if (sinkk == 'J')
+    {
+      // the bytes the JSON sink wrote for this statement (the model keeps both sizes): growth of the current file, or its
+      // whole size when the statement opened it
+      uint64_t wire = size;
+      if (!cur_after.ids.empty() && cur_after.ids.back() == idn)
+        wire = cur_after.ids.size() == 1 ? cur_after.bytes : cur_after.bytes - cur_before.bytes;
+      op << " wire=" << wire;
+    }
+    emit(op.str(), v);
+    if (threw) return;
     bool const rotated = !cur_before.ids.empty() && cur_after.ids.size() == 1 && cur_after.ids[0] == idn;
     if (rotated) { cur_open_ts = ts; ++g_stats["rotations_observed"]; }
     if (cur_after.ids.size() >= 1 && cur_after.ids[0] == idn) open_ts_of_first[idn] = cur_open_ts;
@@ -1171,6 +1180,9 @@ static void gen_case(Rng& rng, std::string const& id, unsigned nops, bool c15, u
     case 3: kind = "size-json"; nonmono = false; c.sinkk = 'J'; break;
     case 4: kind = "size-fa"; nonmono = false; { char const f[] = {'D', 'D', 'T', 'C'}; c.fa = rng.pick(f); } break;
     case 5: kind = "size-resch"; nonmono = false; break;
+    // size limit AND a time schedule on one sink, statements at the rotation points ± 1 ns (the statement that triggers a
+    // time rotation must be counted in the new file's size)
+    case 6: kind = "size-time"; nonmono = false; want_time = true; tz = "UTC"; break;
     default: break;
     }
   }
@@ -1280,7 +1292,8 @@ int main(int argc, char** argv)
       unsigned variant = 0;
       if (!c15)
       {
-        if (i % 9 == 2 || i % 9 == 7) variant = 1;
+        if (i % 9 == 0) variant = 6;
+        else if (i % 9 == 2 || i % 9 == 7) variant = 1;
         else if (i % 9 == 4) variant = 2;
         else if (i % 9 == 6) variant = 3 + (i / 9) % 3;
       }
